@@ -1,6 +1,7 @@
-(* C03 — input status is truthful and confirmed inputs are final (queue level).
+(* C03 — input status is truthful and confirmed inputs are final (queue level, then session level).
    Statements only. *)
 From GGRS Require Import Base Consts Queue QueueProofs QueueTheorems.
+From GGRS Require Import Sync P2P Session SessionProofs SessionSparse SessionProgress SessionSparse2 SessionTimeline SessionTimelineSparse.
 Open Scope Z_scope.
 
 (* For every sequence of arrivals of a remote player's inputs, reads (non-decreasing between two
@@ -36,3 +37,93 @@ Example C03_demo :
             map (fun e => let '(f, v, st, _) := e in (f, v, st)) (rs_log s) =
             [(0, 4, Confirmed); (1, 4, Predicted); (2, 4, Predicted); (3, 4, Predicted); (3, 9, Confirmed); (4, 9, Predicted)].
 Proof. eexists. split; vm_compute; reflexivity. Qed.
+
+
+(* ===================================================================================================
+   SESSION LEVEL (model coq/P2P.v, tied to the code by the `session` correspondence; space and conventions
+   of props/C01.v).  An AdvanceFrame request is read off the request list together with the frame it
+   simulates ([adv_frames]: a Load truncates the game's history, an Advance extends it), so the statements
+   cover the first simulation of a new frame and every re-simulation alike.
+
+   The invariants (QSg: queues, statuses, frames; the cells invariant of the saving mode; TI: the game's input
+   history against the held inputs) hold in every state a run inside the space reaches: *)
+Definition CIm (sparse : bool) : Z -> p2p -> game -> Prop := if sparse then CIs else JI.
+
+Theorem C03_invariants_reachable :
+  forall (predict : Z -> Z), (forall x, predict (predict x) = predict x) -> predict 0 = 0 ->
+  forall (sparse : bool) (ops : list sop) (n w d : Z) (kinds : list pkind) (eps : list (list Z)) (nspec : nat) (p : p2p) (outs : list (pout * apires)),
+  1 <= w -> 0 <= d -> w + d + 3 <= INPUT_QUEUE_LENGTH -> 0 < n -> Z.of_nat (length kinds) = n -> players_only kinds ->
+  srun_in predict (session_start n w sparse d kinds eps nspec) ops = Ok (p, outs) ->
+  exists g gs, exec_outs w (game0 w) outs = Some g /\ QSg sparse w d p gs /\ CIm sparse w p g /\ TI predict p gs (g_hist g).
+Proof.
+  intros predict Hi Hz [|].
+  - exact (sparse_invariants_reachable predict Hi Hz).
+  - exact (invariants_reachable predict Hi Hz).
+Qed.
+
+(* ... and in every such state an operation inside the space succeeds, re-establishes them, and EVERY
+   AdvanceFrame request it emits is truthful against the inputs the session holds when the call returns
+   ([truthful_lt c gs' (f, ins)]: 0 <= f < c = current_frame() after the call, and for every player with held
+   inputs hist: Confirmed /\ f < |hist| /\ value = hist[f], or Predicted /\ |hist| <= f /\ value = predict
+   (last hist) - the default input 0 if hist is empty).  The held inputs are the real ones: for a remote player
+   the inputs delivered, in order; for a local player the delayed inputs registered (props/C01.v). *)
+Theorem C03_requests_truthful :
+  forall (predict : Z -> Z), (forall x, predict (predict x) = predict x) -> predict 0 = 0 ->
+  forall (sparse : bool) (p : p2p) (gs : list ghost) (g : game) (w d : Z) (o : sop),
+  QSg sparse w d p gs -> CIm sparse w p g -> TI predict p gs (g_hist g) -> op_ok p o = true ->
+  exists s gs' g', sstep predict p o = Ok s /\ QSg sparse w d (sr_state s) gs' /\ CIm sparse w (sr_state s) g' /\
+    TI predict (sr_state s) gs' (g_hist g') /\ op_hist d p o gs gs' /\
+    Forall (truthful_lt predict (s_current (ps_sync (sr_state s))) gs') (adv_frames (g_hist g) (o_requests (sr_out s))).
+Proof.
+  intros predict Hi Hz [|].
+  - exact (sparse_requests_truthful_step predict Hi Hz).
+  - exact (requests_truthful_step predict Hi Hz).
+Qed.
+
+(* What a truthful request says, player by player: the status is Confirmed or Predicted (never Disconnected
+   inside the space); a frame whose input is held - in particular every frame at or below confirmed_frame(),
+   which is the minimum over the players of the last held frame - is handed out as Confirmed with exactly the
+   held input, in EVERY simulation of it, so later re-simulations repeat the same values (finality); Predicted
+   means the frame lies beyond everything held and carries the predictor's value. *)
+Theorem C03_confirmed_inputs_final :
+  forall (predict : Z -> Z) (gs : list ghost) (f : Z) (ins : frame_inputs) (h : nat) (hist : list Z) (low v : Z) (st : istatus),
+  truthful predict gs (f, ins) -> nth_error gs h = Some (hist, low) -> nth_error ins h = Some (v, st) ->
+  (st = Confirmed \/ st = Predicted) /\ (f < hlen hist -> st = Confirmed /\ v = hval hist f) /\
+  (st = Predicted -> hlen hist <= f /\ v = predval predict hist).
+Proof. exact truthful_held. Qed.
+
+(* Local players' inputs are always Confirmed (and are the registered inputs) *)
+Theorem C03_local_players_confirmed :
+  forall (predict : Z -> Z) (sparse : bool) (w d : Z) (p : p2p) (gs : list ghost) (f : Z) (ins : frame_inputs) (h : nat) (v : Z) (st : istatus),
+  QSg sparse w d p gs -> truthful_lt predict (s_current (ps_sync p)) gs (f, ins) ->
+  nth_error (ps_kinds p) h = Some KLocal -> nth_error ins h = Some (v, st) ->
+  st = Confirmed /\ exists hist low, nth_error gs h = Some (hist, low) /\ f < hlen hist /\ v = hval hist f.
+Proof. exact truthful_local. Qed.
+
+(* confirmed_frame() never decreases *)
+Theorem C03_confirmed_frame_monotone :
+  forall (predict : Z -> Z), (forall x, predict (predict x) = predict x) -> predict 0 = 0 ->
+  forall (sparse : bool) (p : p2p) (gs : list ghost) (g : game) (w d : Z) (o : sop) (s : sres) (cf cf' : Z),
+  QSg sparse w d p gs -> CIm sparse w p g -> TI predict p gs (g_hist g) -> op_ok p o = true ->
+  sstep predict p o = Ok s -> confirmed_frame p = Ok cf -> confirmed_frame (sr_state s) = Ok cf' -> cf <= cf'.
+Proof.
+  intros predict Hi Hz [|].
+  - exact (sparse_confirmed_frame_monotone predict Hi Hz).
+  - exact (confirmed_frame_monotone predict Hi Hz).
+Qed.
+
+(* non-vacuity: the run of props/C01.v's demo, every AdvanceFrame request of every call with its frame: the
+   last call rolls back to frame 0 and re-simulates frames 0 and 1 with player 1's real inputs (7, Confirmed)
+   where the first simulations had (0, Predicted); the new frame 2 predicts 7 *)
+Fixpoint adv_all (G : ghist) (outs : list (pout * apires)) : list (list (Z * frame_inputs)) :=
+  match outs with
+  | [] => []
+  | o :: r => adv_frames G (o_requests (fst o)) :: adv_all (replay_hist G (o_requests (fst o))) r
+  end.
+Example C03_session_demo :
+  exists p outs, srun_in (fun x => x) (session_start 2 2 false 0 [KLocal; KRemote 0] [[1]] 0)
+      [SLocal 0 1; SAdvance; SLocal 0 1; SAdvance; SRemote 1 0 7; SRemote 1 1 7; SLocal 0 2; SAdvance] = Ok (p, outs) /\
+    adv_all [] outs =
+      [[]; [(0, [(1, Confirmed); (0, Predicted)])]; []; [(1, [(1, Confirmed); (0, Predicted)])]; []; []; [];
+       [(0, [(1, Confirmed); (7, Confirmed)]); (1, [(1, Confirmed); (7, Confirmed)]); (2, [(2, Confirmed); (7, Predicted)])]].
+Proof. eexists. eexists. split; vm_compute; reflexivity. Qed.
